@@ -103,6 +103,15 @@ def generate(rng, tier):
               "noise": rng.random() < 0.35}
     # the user's grammar may already carry library-generated fresh names
     pre = rng.choice([None, None, None, "binarize", "separate_terminals", "separate_start", "cnf"])
+    has_cfg = kind == "cfg" or (multi is not None and "cfg" in multi)
+    if has_cfg:
+        # the grammar object itself is queried: name generation happens lazily,
+        # after whatever else ran in the process; stress the fresh-name counter
+        faults["noise"] = rng.random() < 0.7
+        if rng.random() < 0.6:
+            pre = rng.choice(["binarize", "separate_terminals", "separate_start", "separate_terminals"])
+        if rng.random() < 0.6:
+            sched["gen_nt"] = 0
     if mode == "poly" and pre == "cnf":
         pre = "binarize"
     is_lm = kind in LM_KINDS or (multi is not None and any(k in LM_KINDS for k in multi))
@@ -164,6 +173,8 @@ def generate(rng, tier):
         last_query = op
         ops.append(op)
 
+    if faults["noise"] and rng.random() < 0.5:
+        ops.append({"op": "noise", "what": rng.randrange(6)})
     for _ in range(T):
         r = rng.random()
         p = rng.randrange(len(particles))
@@ -191,7 +202,7 @@ def generate(rng, tier):
         elif r < 0.86 and faults["counter"]:
             ops.append({"op": "counter", "k": rng.choice([1, 5, 1000, rng.getrandbits(24)])})
         elif r < 0.90 and faults["noise"]:
-            ops.append({"op": "noise", "what": rng.randrange(6)})
+            ops.append({"op": "noise", "what": rng.randrange(8)})
         else:
             query(ctx)
     return {"property": ID, "kind": kind, "grammar": ab, "schedule": sched, "ops": ops, "pre": pre}
@@ -327,6 +338,10 @@ def _noise(what):
         BoolCFGLM.from_string("1: S -> a S a\n1: S -> b").p_next(("a",))
     elif what == 4:
         CKYLM.from_string("0.5: S -> a S\n0.5: S -> b").p_next(("a",))
+    elif what == 6:
+        CFG.from_string(text, Float)  # parsed, not even used
+    elif what == 7:
+        CFG.from_string("1: S -> a S b c\n1: S -> d", Float).binarize()
     else:
         g = CFG.from_string("1: S -> A B C D\n1: A -> a\n1: B -> b\n1: C ->\n1: D -> d\n1: S -> S S S", Float)
         g(("a", "b", "d"))
@@ -363,6 +378,9 @@ def _transform(cfg, t, args, tr):
     return getattr(cfg, t)()
 
 
+_USER_SYMBOLS = set()
+
+
 def _do_query(kind, obj, op, tr, user_cfg):
     """Perform one query on an object; returns the raw library result."""
     if isinstance(obj, _Multi):
@@ -384,6 +402,10 @@ def _do_query(kind, obj, op, tr, user_cfg):
             return cfg.derivative(tr([op["a"]])[0])(ctx)
         if q == "transform":
             g = _transform(cfg, op["t"], op.get("args"), tr)
+            if isinstance(g, dict):
+                # a chart keyed by symbols (null_weight): library-generated fresh
+                # names legitimately depend on the counter; compare the user's symbols
+                return {k: v for k, v in g.items() if k in _USER_SYMBOLS}
             if hasattr(g, "rules"):
                 xs = ctx if op["t"] not in ("to_bytes", "add_EOS") else ()
                 try:
@@ -583,6 +605,9 @@ def execute(sc):
     from ..common import apply_schedule
 
     apply_schedule(sched)
+    from ..core import dec as _dec
+    _USER_SYMBOLS.clear()
+    _USER_SYMBOLS.update(_dec(v) for v in pres["nmap"].values())
     out.nontrivial = (not gen.trivial(ab)) and sum(1 for o in sc["ops"] if o["op"] == "query") >= 3
     out.sig = [digest([gen.canon(ab), kind, sc["ops"], sched])]
 
